@@ -1,4 +1,90 @@
+/-
+C07 driver.  `run` / `judge`: the depacketizer protocol of Drv/DepackProto.lean (malformed
+streams, containment judge).  Additional ops:
+  pipe  <DepackProto keys> asc=0|1 hasts=0|1 pcfg=gen|pinned
+        → frames, FLV tags and TS frames of the converter pipeline model, worker liveness
+  classify codec=h264|h265 pcfg=gen|pinned p=<payload hex>     → cache classifier outcome
+  recv  rcfg=gen|pinned chans=<c0>+<c1>+<c2>+<c3> ch=<n> d=<hex> → what `receive` does with the frame
+-/
+import IpcHub.Drv.DepackProto
+import IpcHub.Model.PipelineInst
 namespace IpcHub.Drv.C07
-/-- placeholder: no model built for this property yet -/
-def handle (_ : List String) : String := "bad-op"
+open IpcHub.Depack IpcHub.Drv IpcHub.Drv.DepackProto IpcHub.Pipeline
+
+def tagStr (c : VCodec) : Tag → String
+  | .script => "S"
+  | .vseq sps pps => match c with
+    | .h264 => s!"V.{digest sps}.{digest pps}"
+    | .h265 => "V"            -- the HEVC configuration record is not decoded by the harness
+  | .aseq => "A"
+  | .video k b => s!"v.{boolStr k}.{digest b}"
+  | .audio b => s!"a.{digest b}"
+
+def tsStr : TsFrame → String
+  | .video k h p => s!"v.{boolStr k}.{bytesToHex h}.{digest p}"
+  | .audio p => s!"a.{digest p}"
+
+def pipeAll (dc : Depack.Cfg) (cfg : Pipeline.Cfg) (spsOk : Bytes → Bool) (ascOk hasTs : Bool) :
+    St → List WPkt → St × List Frame × List Tag × List TsFrame
+  | s, [] => (s, [], [], [])
+  | s, w :: ws =>
+    let (s1, fs, tg, tf) := Pipeline.step dc cfg spsOk ascOk hasTs s (toIn w)
+    let (s2, fs2, tg2, tf2) := pipeAll dc cfg spsOk ascOk hasTs s1 ws
+    (s2, fs ++ fs2, tg ++ tg2, tf ++ tf2)
+
+def dash (s : String) : String := if s = "" then "-" else s
+
+def pipe (ts : List String) : String :=
+  match parseSetup ts with
+  | none => "bad-op"
+  | some su =>
+    let cfg := if kv ts "pcfg" = some "pinned" then Pipeline.pinnedCfg else Pipeline.genCfg
+    let spsOk : Bytes → Bool := fun b => su.ok.contains b
+    let ascOk := kv ts "asc" = some "1"
+    let hasTs := kv ts "hasts" = some "1"
+    let (s, fs, tg, tf) := pipeAll su.cfg cfg spsOk ascOk hasTs { demux := su.d0 } su.ordered
+    let forced := { su.d0 with v := { su.d0.v with ready := true } }
+    let (_, gs, _) := runAll su.cfg spsOk forced su.ordered
+    let cands := ((gs.filter (isSpsFrame su.codec)).map (·.payload) ++ [su.d0.v.vmeta.sps]).eraseDups
+    let unk := cands.filter (fun c => !c.isEmpty && !su.ok.contains c && !su.ko.contains c)
+    let pk := ",".intercalate (su.built.pkts.map (fun w =>
+      s!"{w.ch}.{w.pkt.seq.toNat}.{w.pkt.ts.toNat}.{boolStr w.pkt.marker}.{bytesToHex w.pkt.payload}"))
+    let fr := ",".intercalate (fs.map (fun f =>
+      let r := if f.audio then su.arate else su.rate
+      s!"{boolStr f.audio}.{f.ts.toNat}.{f.base.toNat}.{intStr (f.pts su.cfg r)}.{digest f.payload}"))
+    s!"pkts={dash pk} frames={dash fr} tags={dash (",".intercalate (tg.map (tagStr su.codec)))} tsf={dash (",".intercalate (tf.map tsStr))} dalive={boolStr s.demux.alive} falive={boolStr s.flv.alive} talive={boolStr s.ts.alive} ready={boolStr s.demux.v.ready} sps={digest s.demux.v.vmeta.sps} pps={digest s.demux.v.vmeta.pps} vps={digest s.demux.v.vmeta.vps} sts=- alive={boolStr s.demux.alive} nfrags={s.demux.v.frags.length} vbase={s.demux.v.base.toNat} abase={s.demux.abase.toNat} unk={"+".intercalate (unk.map bytesToHex)}"
+
+def classifyOp (ts : List String) : String :=
+  match hexToBytes ((kv ts "p").getD "-") with
+  | none => "bad-op"
+  | some p =>
+    let cfg := if kv ts "pcfg" = some "pinned" then Pipeline.pinnedCfg else Pipeline.genCfg
+    let c := if kv ts "codec" = some "h265" then VCodec.h265 else VCodec.h264
+    match Pipeline.classify cfg c p with
+    | .panic => "out=panic"
+    | .fuel => "out=fuel"
+    | .cls k =>
+      let sl := match CacheClassify.slot k with
+        | .vps => "vps" | .sps => "sps" | .pps => "pps" | .gopStart => "key" | .other => "other"
+      s!"out={sl}"
+
+def recvOp (ts : List String) : String :=
+  match hexToBytes ((kv ts "d").getD "-"), (splitNE ((kv ts "chans").getD "0+1+2+3") '+').mapM parseInt with
+  | some d, some chans =>
+    let cfg := if kv ts "rcfg" = some "pinned" then Pipeline.pinnedRtpCfg else Pipeline.genRtpCfg
+    match RtpPacket.receive cfg chans (kvNat ts "ch" 0) d with
+    | .media i h data =>
+      s!"out=media ch={i} seq={h.seq.toNat} ts={h.ts.toNat} m={boolStr h.marker} off={h.payloadOffset} payload={bytesToHex (RtpPacket.payload cfg h data)}"
+    | .control i _ => s!"out=control ch={i}"
+    | .skip => "out=skip"
+    | .close => "out=close"
+    | .panic => "out=panic"
+  | _, _ => "bad-op"
+
+def handle : List String → String
+  | "pipe" :: ts => pipe ts
+  | "classify" :: ts => classifyOp ts
+  | "recv" :: ts => recvOp ts
+  | ts => DepackProto.handle ts
+
 end IpcHub.Drv.C07
